@@ -39,7 +39,8 @@ ALL_CLAIMS = {
             "differ from the definition, per activated prefilter variant"),
     "C06": ("3 C06", BMC + "packed Rabin-Karp find_in/FindIter on fully symbolic exactly-sized haystacks and spans vs "
             "the leftmost definition; 128-bit slim Teddy (pshufb stubbed by its lane semantics) on windowed symbolic "
-            "content around the vector boundary",
+            "content around the vector boundary; the candidate-verification primitives shared by every packed variant "
+            "(is_prefix, Pattern::is_prefix_raw, is_equal_raw) as units for needle lengths 0..13 with symbolic contents",
             "SAT-decided equality with the leftmost definition for Rabin-Karp (all contents up to N bytes) and for "
             "Teddy on a symbolic window at stated offsets of a 16..19 byte haystack"),
     "C07": ("3 C07", "Kani/CBMC inductive step of StreamChunkIter::next from an arbitrary pre-state under an explicit "
@@ -61,9 +62,14 @@ ALL_CLAIMS = {
     "C11": ("3 C11", BMC + "case-insensitive builds searched on fully symbolic haystacks vs the specification with "
             "A-Z/a-z folding only; exhaustive solver check of the builders' letter flip over all 256 byte values",
             "SAT-decided equality with the folded definition (so '@','[','`','{' and bytes >= 0x80 are covered)"),
-    "C12": ("3 C12", BMC + "try_replace_all_with_bytes / try_replace_all_with on symbolic haystacks (valid UTF-8 "
-            "assumed for the str variant) with a symbolic stop point of the closure vs the splice specification",
-            "SAT-decided equality of the output with the splice of the iterator's matches for haystacks up to N bytes"),
+    "C12": ("3 C12", "Kani/CBMC bounded model checking of the real replace drivers and the real non-overlapping iterator "
+            "over an abstract searcher (hook: try_find answered from a fully symbolic table = every search function on an "
+            "N-byte haystack), symbolic haystack (valid UTF-8 assumed for the str variant), symbolic stop point of the "
+            "closure, vs the splice specification; composed with C01/C02 (try_find is the defined search). Thorough adds "
+            "the drivers over real automata at N<=3",
+            "SAT-decided: for every search function, every haystack up to N bytes and every stop point the output is the "
+            "splice of the iterator's matches (str: matches off character boundaries skipped, no panic); holds for every "
+            "pattern list by composition with C01/C02"),
     "C13": ("3 C13", BMC + "AhoCorasick values rebuilt around each automaton kind for every match kind x start kind; "
             "fallible APIs: Err iff the rejection predicate; infallible APIs: must panic on every path in rejected "
             "cells (should_panic + unsatisfiable 'returned normally' witness), must not panic in accepted cells",
